@@ -181,6 +181,9 @@ def done_rule(ctx: Ctx, rid: str) -> None:
                 f"membership test (no range check, nothing else that can raise); recovered: returns {vals}, calls {got_calls}")
     f = m.method("ToySimulation", "is_done")
     ok, shown = same_truth_function(m, f, "not self.state.instruction_loaded()")
+    if not ok:
+        # the same test with the (separately checked) predicate written out
+        ok, shown = same_truth_function(m, f, "self.state.loaded_instruction is None")
     r.check(ok, "ToySimulation.is_done", f.loc(), f"TOY is_done is `{shown}`, not `not self.state.instruction_loaded()`")
     f = m.method("ToyArchitecturalState", "instruction_loaded")
     ok, shown = same_truth_function(m, f, "self.loaded_instruction is not None")
